@@ -105,6 +105,9 @@ func NewProcess(opts ...ProcOpts) *Process {
 func (p *Process) run() int {
 	verifYieldP(p, "run.entry")
 	if p.isState(types.ProcessStateTerminating) {
+		// stopped before it was started: there is nothing to terminate, do not leave
+		// the process in the transient state for ever
+		p.setState(types.ProcessStateCompleted)
 		return 0
 	}
 
